@@ -157,7 +157,7 @@ func runChild(job childJob) ([]blockResult, error) {
 	cmd := exec.Command(exe, "replica-child")
 	// the separate process runs in a different process ENVIRONMENT: local time zone 14 hours ahead of UTC (falls back to
 	// UTC where the zone database is missing), another locale and home directory — none of it is a block input
-	cmd.Env = append(os.Environ(), "TZ=Pacific/Kiritimati", "LANG=tr_TR.UTF-8", "LC_ALL=tr_TR.UTF-8", "HOME=/nonexistent/verif-child-home")
+	cmd.Env = append(os.Environ(), "TZ=Pacific/Kiritimati", "LANG=tr_TR.UTF-8", "LC_ALL=tr_TR.UTF-8", "HOME=/nonexistent/verif-child-home", "GOMAXPROCS=1")
 	in, err := json.Marshal(job)
 	if err != nil {
 		return nil, err
